@@ -199,6 +199,12 @@ fn case_strategy(max_len: usize, avoid_f11: bool) -> impl Strategy<Value = Case>
         .prop_map(|(emb, kind, from, ops, same_fd)| Case { emb, kind, from, ops, same_fd: same_fd && kind == Kind::Fd })
 }
 
+/// Histories in which every child is a Generic over one shared eventfd (used by C16 as well).
+pub fn same_fd_strategy(max_len: usize, avoid_f11: bool) -> impl Strategy<Value = Case> {
+    (prop_oneof![Just(Emb::Top), Just(Emb::Comp)], prop_oneof![5 => Just(true), 1 => Just(false)], proptest::collection::vec(op_strategy(avoid_f11), 0..=max_len))
+        .prop_map(|(emb, from, ops)| Case { emb, kind: Kind::Fd, from, ops, same_fd: true })
+}
+
 // ------------------------------------------------------------------------------------------
 // the real side: instrumented children, the composite parent, the world
 // ------------------------------------------------------------------------------------------
@@ -291,7 +297,10 @@ fn new_child_shared(sh: &Rc<Sh>, kind: Kind, share: bool) -> Child {
             let shared = if share { g.fds.iter().enumerate().find(|(i, fd)| **fd >= 0 && g.sibling != Some(*i)).map(|(_, fd)| *fd) } else { None };
             let fd = shared.unwrap_or_else(kernel::eventfd_nonblock);
             assert!(fd >= 0, "eventfd failed (fd exhaustion?)");
-            (fd, Inner::Fd(Generic::new(BorrowedRaw(fd), Interest::READ, Mode::Level)))
+            // children sharing the fd alternate between level and edge triggering: swapping a source for one with
+            // another mode on the same descriptor is what sharing is for, and the kernel entry shows whose it is
+            let mode = if share && id % 2 == 1 { Mode::Edge } else { Mode::Level };
+            (fd, Inner::Fd(Generic::new(BorrowedRaw(fd), Interest::READ, mode)))
         }
         Kind::Timer => (-1, Inner::Timer(Timer::from_deadline(far()))),
     };
@@ -1023,6 +1032,22 @@ impl World {
                         // children over one shared fd: the fd is in the table exactly when one of them is expected there
                         let exp = (0..self.model.ch.len()).any(|k| !self.model.ch[k].sibling && fds[k] == fds[id] && self.model.expected(k));
                         let present = table.iter().any(|e| e.tfd == fds[id]);
+                        if present && exp && self.sh.same_fd && self.model.expected(id) {
+                            // the entry carries the mode of the child that registered last: the current one
+                            let et = table.iter().any(|e| e.tfd == fds[id] && e.events & kernel::EPOLLET != 0);
+                            if et != (id % 2 == 1) {
+                                return Some(v(
+                                    "C18.reg",
+                                    "kernel-entry-of-another-child",
+                                    format!(
+                                        "after step {what}: the kernel epoll entry of shared fd {} is {}-triggered, the current child {id} registered it {}-triggered: the entry is still the one of a child that was replaced",
+                                        fds[id],
+                                        if et { "edge" } else { "level" },
+                                        if id % 2 == 1 { "edge" } else { "level" }
+                                    ),
+                                ));
+                            }
+                        }
                         if present != exp {
                             return Some(v(
                                 "C18.reg",
